@@ -48,6 +48,12 @@ def handleSyscall(manifest):
     src = Source("hextb.cpp", manifest)
     b, _, _ = src.block_after(r"void handleSyscall\(hex::Syscall syscall,\s*const std::unique_ptr<Vhex_pkg> &top,\s*int &exitCode,\s*bool trace\) \{", "hextb handleSyscall")
     c = {}
+    # a local reference to the memory array (`auto &m = top->hex->u_memory->memory_q;`) is expanded
+    ma = re.search(r"auto &(\w+) = " + re.escape(MEMQ) + r";", b)
+    if ma:
+        b = b[:ma.start()] + b[ma.end():]
+        b = re.sub(r"(?<![\w.>])%s\[" % re.escape(ma.group(1)), MEMQ + "[", b)
+        c["memory alias expanded"] = ma.group(1)
     b = _drop_if_blocks(b, r"trace", "TB_TRACE();", c, "trace blocks")
     if c.get("trace blocks", 0) != 3:
         raise ExtractionError("handleSyscall: expected 3 `if (trace) {...}` blocks, found %s" % c)
@@ -69,11 +75,16 @@ def run_parts(manifest):
     """run(): prologue statements, loop condition, loop body as tb_tick(), epilogue"""
     src = Source("hextb.cpp", manifest)
     b, _, _ = src.block_after(r"int run\(const std::unique_ptr<VerilatedContext> &contextp,\s*const std::unique_ptr<Vhex_pkg> &top,\s*bool trace,\s*size_t maxCycles\) \{", "hextb run")
-    m = re.search(r"while \((!contextp->gotFinish\(\) &&\s*\(maxCycles > 0 \? cycle_count <= maxCycles : true\))\) \{", b)
-    if not m:
-        raise ExtractionError("hextb run(): loop header not found")
-    cond = " ".join(m.group(1).split())
-    lb = m.end() - 1
+    m = re.search(r"\bwhile \(", b)
+    if not m or len(re.findall(r"\bwhile \(", b)) != 1 or re.search(r"\bfor \(|\bdo \{", b):
+        raise ExtractionError("hextb run(): expected exactly one loop, `while (<condition>) {`")
+    cp = match_close(b, m.end() - 1, "(", ")")
+    cond = " ".join(b[m.end():cp].split())
+    if "!contextp->gotFinish()" not in cond or "maxCycles" not in cond:
+        raise ExtractionError("hextb run(): loop condition does not test gotFinish() and maxCycles: %r" % cond)
+    lb = b.index("{", cp)
+    if b[cp + 1:lb].strip():
+        raise ExtractionError("hextb run(): loop body is not a block")
     rb = match_close(b, lb)
     body = b[lb:rb + 1]
     pro = strip_comments(b[1:m.start()]).strip()
@@ -115,6 +126,9 @@ def run_parts(manifest):
     if "top->" in body or "contextp" in body:
         raise ExtractionError("hextb run(): unconverted testbench access left in loop body")
     cond_c = cond.replace("!contextp->gotFinish()", "!tb_gotFinish")
+    leftover_check(cond_c, "hextb run() loop condition")
+    if "contextp" in cond_c or "top->" in cond_c:
+        raise ExtractionError("hextb run(): loop condition not understood: %r" % cond)
     manifest.append({"unit": "hextb run", "prologue": stmts, "extra_locals": extra, "loop_condition": cond, "dropped": ["trace printing block", "top->final()"]})
     # the loop body in two halves at the system-call sampling `if` (C06 states its relation between them)
     # split point: directly after the (dropped) trace block that follows eval() and the cycle counter
@@ -141,6 +155,19 @@ def load_fn(manifest):
     src = Source("hextb.cpp", manifest)
     b, _, _ = src.block_after(r"void load\(const char \*filename,\s*const std::unique_ptr<Vhex_pkg> &top\) \{", "hextb load")
     c = {}
+    # the names of load()'s locals are free: they are mapped to the names the rules below (and the harness stubs) use
+    ren = {}
+    for rx, canon in ((r"std::streampos (\w+);", "fileSize"), (r"unsigned (\w+) = static_cast<unsigned>\(\w+\) - 4;", "remainingFileSize"),
+                      (r"unsigned (\w+);\s*file\.read\(reinterpret_cast<char\*>\(&\1\), 4\);", "programSize"), (r"std::vector<uint32_t> (\w+)\(", "buffer")):
+        mr = re.search(rx, b)
+        if mr and mr.group(1) != canon:
+            ren[mr.group(1)] = canon
+    for old_, new_ in ren.items():
+        if re.search(r"\b%s\b" % new_, b):
+            raise ExtractionError("hextb load(): cannot rename local %s to %s (name in use)" % (old_, new_))
+        b = re.sub(r"\b%s\b" % re.escape(old_), new_, b)
+    if ren:
+        manifest.append({"unit": "hextb load", "locals_renamed": ren})
     b = _drop_if_blocks(b, r"programSize != remainingFileSize", "/* size-mismatch warning dropped */;", c, "warning")
     b = rewrite(b, [
         (r"std::streampos fileSize;", "long fileSize;", 1, 1),
